@@ -30,6 +30,7 @@ RULES = {
     "R10.3": "restore and load_checkpoint follow the read protocol; clean failures (FileNotFoundError / ValueError) precede instantiation / manager.restore",
     "R10.4": "each restore() override is assigned to the config key of the same meaning under `is not None`; the keys exist in all solver configs",
     "R10.5": "Solver._setup_config stores problem.config into self.config.problem when a problem instance is given",
+    "R10.7": "the restore template (a fresh solver's solver_state) has, leaf by leaf, the kind declared in the State/Info dataclass: Orbax casts restored leaves to the template's type (instances of C09 R9.6)",
     "R10.6": "completeness: every field solver_state saves is read back by _restore_state_from_checkpoint, into the attribute it was saved from",
 }
 ASSUMPTIONS = [
@@ -70,6 +71,10 @@ def run(ctx: Context, col) -> None:
     col.floor("R10.4", 4)
     col.floor("R10.5", 1)
     col.floor("R10.6", 5)
+    from .c09 import template_kinds
+    for cls in ctx.solvers():
+        template_kinds(ctx, cls, col, "R10.7")
+    col.floor("R10.7", 10)
 
 
 # ------------------------------------------------------------------- R10.1
